@@ -900,8 +900,16 @@ impl CxxCodeBodyTranslator {
                             .chain(formatted_args)
                             .join(" << ")
                     }
-                    BuiltinFunctionKind::Max => format!("std::max({})", formatted_args.join(", ")),
-                    BuiltinFunctionKind::Min => format!("std::min({})", formatted_args.join(", ")),
+                    BuiltinFunctionKind::Max => format!(
+                        "std::max{}({})",
+                        min_max_template_arguments(args),
+                        formatted_args.join(", ")
+                    ),
+                    BuiltinFunctionKind::Min => format!(
+                        "std::min{}({})",
+                        min_max_template_arguments(args),
+                        formatted_args.join(", ")
+                    ),
                     BuiltinFunctionKind::Tr => format!(
                         "QCoreApplication::translate({context}, {args})",
                         context = format_cxx_string_literal(&self.tr_context),
@@ -1010,6 +1018,18 @@ fn format_cxx_string_literal(s: &str) -> String {
     }
     literal.push('"');
     literal
+}
+
+/// Explicit template arguments needed to call `std::min()`/`max()` with the given operands.
+///
+/// An integer literal is an `int` in C++, so `std::min(<uint>, 3)` would be ambiguous.
+fn min_max_template_arguments(args: &[tir::Operand]) -> &'static str {
+    let has_integer_literal = args.iter().any(|a| a.type_desc() == TypeDesc::ConstInteger);
+    if has_integer_literal && args.iter().any(|a| a.type_desc() == TypeDesc::UINT) {
+        "<uint>"
+    } else {
+        ""
+    }
 }
 
 fn is_float_rem(op: &BinaryOp, left: &tir::Operand) -> bool {
